@@ -37,6 +37,20 @@ def check(ctx):
     fam_of = {e.name: getattr(e, "family", "") for e in envs}
     for p in run.problems:
         ctx.violation("harness problem: " + p, {"problem": p}, found_input=False)
+    # the unchecked (release) branches of the sub-input cursors: the release build must print exactly what the debug build prints
+    envs_r, run_r = core.core_run(ctx.tier, profile="release")
+    for p in run_r.problems[:2]:
+        ctx.violation("harness problem (release build): " + p, {"problem": p}, found_input=False)
+    if not run_r.problems:
+        nrel = 0
+        for (a, b, x, aa), (ar, br, xr, aar) in zip(run.records(), run_r.records()):
+            if a != ar:
+                nrel += 1
+                if nrel <= 3:
+                    sid_, form_, hx_, ia_, ib_, f_ = rtcat.split_line(a)
+                    ctx.violation("sub-input parse differs between the debug and the release build (unchecked slicing of the sub-input cursor): %s vs %s"
+                                  % (a[:160], ar[:160]), dict(core.describe(envs, sid_), form=form_, input_hex=hx_, a=ia_, b=ib_, impl_debug=a, impl_release=ar))
+        ctx.coverage["debug_release_differences"] = nrel
     fresh = {}
     cur_env = None
     n = t2_bad = t3_bad = nsub = missing = 0
